@@ -13,7 +13,7 @@ func init() {
 		ID: "C16", Level: "exploration",
 		Rule: "one case = one history of 8..40 cursor operations on two cursors (DECLARE, OPEN, FETCH NEXT/PRIOR/FIRST/LAST/ABSOLUTE n/RELATIVE n with n in {0,±1,±len,±(len+1),10^12}, CLOSE, DISPOSE, WHILE..IN, the status expressions IS [NOT] OPEN / IS [NOT] IN RANGE / COUNT) interleaved with INSERT/UPDATE/DELETE/ALTER on the underlying table, COMMIT and ROLLBACK, executed statement by statement in one real transaction; result sizes 0,1,2,7 and 300. " +
 			"Oracle: a cursor model (declared, open, snapshot rows taken by a SELECT of the same query at OPEN time, pointer clamped to [-1,len], fetched flag); fetched values, status values, the rows visited by WHILE..IN and whether an operation is an error are compared after every operation. non-trivial = at least 3 in-range fetches were compared after the underlying table had changed; distinct = history digest.",
-		Quick: 6000, Thorough: 500000, FloorQuick: 600, FloorThorough: 60000,
+		Quick: 8000, Thorough: 500000, FloorQuick: 600, FloorThorough: 40000,
 		Assumptions: []string{"the variables after an out-of-range FETCH are not judged (the manual says NULL, the property is silent)", "fetch offsets that are not integers are executed only to watch for internal failures"},
 		Setup:       func(w *core.Worker) { core.HermeticProcess(w.Work) },
 		Fn:          c16Case,
@@ -57,6 +57,9 @@ func c16Case(w *core.Worker, i int) {
 	s.Exec("VAR @a; VAR @b;")
 	for qi, q := range queries {
 		s.Exec(fmt.Sprintf("PREPARE ps%d FROM %s;", qi, core.SQLStr(q)))
+	}
+	for _, cn := range []string{"c1", "c2"} {
+		s.Exec(fmt.Sprintf("DECLARE nx_%s FUNCTION () AS BEGIN VAR @p; VAR @q; FETCH %s INTO @p, @q; RETURN @p; END;", cn, cn))
 	}
 	step := 0
 	viol := func(sig, what string) {
@@ -277,6 +280,61 @@ func c16Case(w *core.Worker, i int) {
 				}
 			}
 			w.Count("nested_block_cursor_probes", 1)
+		case op == 18 && c.open:
+			// the cursor fetched from inside a function that a query calls once per row (by several workers on a large table):
+			// every snapshot row from the current position on is handed out exactly once
+			cnt := s.Exec("SELECT COUNT(*) FROM t;")
+			if cnt.Err != nil || len(cnt.Views) != 1 {
+				continue
+			}
+			T, _ := strconv.Atoi(cnt.Views[0].Rows[0][0].S)
+			res := exec(fmt.Sprintf("SELECT nx_%s() FROM t;", cn))
+			if !expectErr(res, false, "") {
+				return
+			}
+			if len(res.Views) != 1 || len(res.Views[0].Rows) != T {
+				viol("fetch-in-query", fmt.Sprintf("the query returned %d rows, the table has %d", len(res.Views[0].Rows), T))
+				return
+			}
+			from := c.idx + 1
+			if from < 0 {
+				from = 0
+			}
+			to := from + T
+			if to > len(c.rows) {
+				to = len(c.rows)
+			}
+			wantBag := map[string]int{}
+			for j := from; j < to; j++ {
+				wantBag[c.rows[j][0].String()]++
+			}
+			gotBag := map[string]int{}
+			for _, row := range res.Views[0].Rows {
+				if row[0].T != 'N' {
+					gotBag[row[0].String()]++
+				}
+			}
+			okBag := len(gotBag) == len(wantBag)
+			for k2, n2 := range wantBag {
+				if gotBag[k2] != n2 {
+					okBag = false
+				}
+			}
+			if !okBag {
+				viol("fetch-in-query", fmt.Sprintf("%d calls handed out %d distinct rows of the snapshot; rows %d..%d (%d distinct) were due, each exactly once", T, len(gotBag), from, to-1, len(wantBag)))
+			}
+			compared++
+			if changedSinceOpen && to > from {
+				inRangeAfterChange++
+			}
+			if T > 0 {
+				c.fetched = true
+				c.idx = c.idx + T
+				if c.idx > len(c.rows) {
+					c.idx = len(c.rows)
+				}
+			}
+			w.Count("fetches_from_inside_a_query", 1)
 		case op == 17 && c.open && len(c.rows) > 0:
 			// one FETCH statement executed repeatedly (loop body): every execution addresses the same position of the snapshot
 			L := len(c.rows)
